@@ -46,6 +46,7 @@ type Contract struct {
 	hints    []*Clause
 	split    bool // one postcondition obligation per return site
 	noexec   string // reason why the contract is not executed against the real function
+	bounded string // `bounded REASON`: the contract is only executed against the real function (bounded stand-in, never counted as proved)
 	frameAssumed string // the `modifies` clause is assumed, not proved (reason); everything else is verified
 	prepare  []string
 	frameWithout []string
@@ -163,6 +164,12 @@ func parseContracts(pkg *packages.Package) ([]*Contract, error) {
 					// Go statement(s) run on generated inputs before the contract is executed
 					// (steers the bounded input generator into the precondition; not part of the proof)
 					cur.prepare = append(cur.prepare, rest)
+				case "bounded":
+					cur.bounded = rest
+					if cur.bounded == "" {
+						cur.bounded = "outside the verifier's theories"
+					}
+					cur.mode = "bounded"
 				case "frame-assumed":
 					cur.frameAssumed = rest
 					if cur.frameAssumed == "" {
